@@ -14,6 +14,7 @@ import (
 	"testing"
 	"time"
 
+	"github.com/libp2p/go-libp2p/core/event"
 	"github.com/libp2p/go-libp2p/internal/vfh"
 )
 
@@ -78,7 +79,7 @@ func vfC15DeadlockAttempt(attempt int) (bool, string) {
 		done <- struct{}{}
 	}()
 	time.Sleep(30 * time.Millisecond) // ordering of the set-up only (E queued before T); never decides the verdict
-	go func() { // T: takes the bus lock, queues on node A's lock behind E
+	go func() {                       // T: takes the bus lock, queues on node A's lock behind E
 		s, err := b.Subscribe(new(vfC15EvA), BufSize(16))
 		tRet.Store(true)
 		if err == nil {
@@ -127,4 +128,117 @@ func vfC15DeadlockAttempt(attempt int) (bool, string) {
 		detail += "; all three calls completed once the harness read that channel directly"
 	}
 	return stuck, detail
+}
+
+// TestVerifC15CloseUnderContention drives the real bus into a state the model reaches and from which
+// every behaviour of the model terminates (liveness of C15_EventBus): a subscription to <<A,B>> whose
+// owner has stopped reading is being closed while (1) an emitter of B is stalled on its full channel
+// holding node B's lock, (2) another Subscribe(B) holds the bus lock waiting for node B, and (3) node A
+// becomes droppable when the subscription leaves it (so Close itself needs the bus lock).  Close's own
+// drain goroutine is what unblocks the chain; all three calls must complete.
+func TestVerifC15CloseUnderContention(t *testing.T) {
+	res := vfh.NewResult()
+	defer func() {
+		if err := res.Write(); err != nil {
+			t.Fatal(err)
+		}
+	}()
+	res.Rule = "one case = one gate-driven scenario: Close of a two-type subscription under a stalled emit, a bus-lock holder and a droppable node; non-trivial = the contention was established before Close was called"
+	for attempt := 0; attempt < 3; attempt++ {
+		for _, buf := range []int{0, 1} {
+			established, done, detail := vfC15CloseContention(buf)
+			res.Count(1, 5)
+			res.Case(fmt.Sprintf("buf%d-established-%v", buf, established))
+			if attempt == 0 {
+				res.Sample(map[string]any{"scenario": fmt.Sprintf("S=Subscribe([A,B],buf %d); A's emitter closed; Emit(B) stalled on S; T=Subscribe(B) holds bus lock; S.Close()", buf), "outcome": detail})
+			}
+			if established && !done {
+				res.AddMismatch(vfh.Mismatch{Class: "deadlock-close-under-contention", Walk: -1, Step: attempt,
+					What: "sub.Close() of a two-type subscription never returns while an Emit is stalled on its channel and another Subscribe holds the bus lock: " + detail})
+				return
+			}
+		}
+	}
+}
+
+func vfC15CloseContention(buf int) (established bool, done bool, detail string) {
+	b := NewBus().(*basicBus)
+	emA, err := b.Emitter(new(vfC15EvA))
+	if err != nil {
+		panic(err)
+	}
+	emB, err := b.Emitter(new(vfC15EvB))
+	if err != nil {
+		panic(err)
+	}
+	s, err := b.Subscribe([]any{new(vfC15EvA), new(vfC15EvB)}, BufSize(buf))
+	if err != nil {
+		panic(err)
+	}
+	emA.Close() // node A is kept alive by S alone
+	var nodeB *node
+	b.lk.RLock()
+	nodeB = b.nodes[reflect.TypeOf(vfC15EvB{})]
+	b.lk.RUnlock()
+	fin := make(chan string, 8)
+	// fill the buffer, then one more Emit stalls holding node B's lock (the owner of S does not read)
+	go func() {
+		for i := 0; i <= buf; i++ {
+			emB.Emit(vfC15EvB{E: "e3", N: i + 1})
+		}
+		fin <- "emit"
+	}()
+	wait := func(cond func() bool) bool {
+		for i := 0; i < 3000; i++ {
+			if cond() {
+				return true
+			}
+			time.Sleep(time.Millisecond)
+		}
+		return false
+	}
+	locked := func(try func() bool, unlock func()) bool {
+		if try() {
+			unlock()
+			return false
+		}
+		return true
+	}
+	if !wait(func() bool { return len(s.Out()) == buf && locked(nodeB.lk.TryLock, nodeB.lk.Unlock) }) {
+		return false, false, "emitter never stalled"
+	}
+	var tsub event.Subscription
+	go func() {
+		tsub, _ = b.Subscribe(new(vfC15EvB), BufSize(16))
+		fin <- "subscribe"
+	}()
+	if !wait(func() bool { return locked(b.lk.TryLock, b.lk.Unlock) }) {
+		return false, false, "second Subscribe never took the bus lock"
+	}
+	time.Sleep(20 * time.Millisecond)
+	go func() {
+		s.Close()
+		fin <- "close"
+	}()
+	got := map[string]bool{}
+	deadline := time.After(10 * time.Second)
+	for len(got) < 3 {
+		select {
+		case x := <-fin:
+			got[x] = true
+		case <-deadline:
+			detail = fmt.Sprintf("after 10 s: Close returned=%v, stalled Emit returned=%v, second Subscribe returned=%v", got["close"], got["emit"], got["subscribe"])
+			// break the cycle from outside so the process can go on
+			go func() {
+				for range s.Out() {
+				}
+			}()
+			return true, false, detail
+		}
+	}
+	if tsub != nil {
+		tsub.Close()
+	}
+	emB.Close()
+	return true, true, "all three calls completed"
 }
